@@ -43,6 +43,11 @@ def BEFORE(x, y):
 
 
 def register(reg):
+    _register_core(reg)
+    register_unless(reg)
+
+
+def _register_core(reg):
     S = ['C07']
     reg.cls('Pattern', target='lark.lexer:Pattern', consts={'value': 'str', 'flags': 'set[str]'})
     reg.cls('TerminalDef', target='lark.lexer:TerminalDef', consts={'name': 'str', 'pattern': 'Pattern', 'priority': 'int'})
@@ -128,4 +133,62 @@ def register(reg):
                           'implies(FULLMATCH(self.scanner, t.value) is None, t.type == old(t.type))',
                           't.value == old(t.value) and t.start_pos == old(t.start_pos) and t.end_pos == old(t.end_pos) and t.line == old(t.line) '
                           'and t.column == old(t.column) and t.end_line == old(t.end_line) and t.end_column == old(t.end_column)'],
+                 replay=_replay)
+
+
+# ---- which string terminals are folded into a regexp terminal (keywords against identifiers): the double loop of _create_unless
+def _unless_region(fn):
+    for n in ast.walk(fn):
+        if isinstance(n, ast.For) and 'PatternRE' in ast.unparse(n.iter) and isinstance(n.target, ast.Name) and n.target.id == 'retok':
+            return [n]
+    return None
+
+
+def register_unless(reg):
+    reg.classes['Scanner'].fields.update({'terminals': __import__('pyvc.ty', fromlist=['parse_type']).parse_type('list[TerminalDef]'),
+                                          'g_regex_flags': __import__('pyvc.ty', fromlist=['parse_type']).parse_type('any')})
+    reg.contract('lark.lexer:Scanner.__init__', assumed=True, kind='method', modifies=['self'],
+                 params={'self': 'Scanner', 'terminals': 'list[TerminalDef]', 'g_regex_flags': 'any', 're_': 'any', 'use_bytes': 'any'},
+                 ensures=['self.terminals is terminals', 'self.g_regex_flags == g_regex_flags'])
+    reg.contract('lark.lexer:UnlessCallback.__init__', assumed=True, kind='method', modifies=['self'], params={'self': 'UnlessCallback', 'scanner': 'Scanner'},
+                 ensures=['self.scanner is scanner'])
+    # re_.match(regexp, s, flags).group(0) or None: a function of the regexp text, the candidate string and the GLOBAL flags in force
+    reg.specfun('GM', [('regexp', 'str'), ('s', 'str'), ('flags', 'any')], 'opt[str]')
+    reg.contract('lark.lexer:_get_match', assumed=True, pure=True, params={'re_': 'any', 'regexp': 'str', 's': 'str', 'flags': 'any'}, returns='opt[str]',
+                 ensures=['result == GM(regexp, s, flags)'])
+    reg.specfun('FSUB', [('a', 'Pattern'), ('b', 'Pattern')], 'bool', doc='a.flags <= b.flags')
+    reg.contract('flags_subset', assumed=True, pure=True, params={'strtok': 'TerminalDef', 'retok': 'TerminalDef'}, ghost_params=['strtok', 'retok'], returns='bool',
+                 ensures=['result == FSUB(strtok.pattern, retok.pattern)'])
+    # the keyword condition of the statement: same priority, and the regexp terminal matches the string terminal's text exactly
+    KW = '(%(s)s.priority == %(r)s.priority and GM(REGEXP(%(r)s.pattern), %(s)s.pattern.value, g_regex_flags) == %(s)s.pattern.value)'
+    reg.contract('lark.lexer:_create_unless#fold', serves=['C07'], region=_unless_region,
+                 params={'RETOKS': 'list[TerminalDef]', 'STRTOKS': 'list[TerminalDef]', 'embedded_strs': 'set[TerminalDef]', 'callback': 'dict[str,UnlessCallback]',
+                         'g_regex_flags': 'any', 're_': 'any', 'use_bytes': 'any'},
+                 requires=['all(not (k in callback) for k in STR)', 'all(not (x in embedded_strs) for x in TERMINALDEFS)', 'RETOKS is not STRTOKS',
+                           'all(implies(i != j, RETOKS[i].name != RETOKS[j].name) for i in range(0, len(RETOKS)) for j in range(0, len(RETOKS)))'],
+                 modifies=['embedded_strs', 'callback'],
+                 ghost={'append_named': True, 'ensures_fall': [
+                     # a regexp terminal gets a retyping callback exactly when some string terminal is a keyword of it ...
+                     'all(implies(any(%s for j in range(0, len(STRTOKS))), RETOKS[i].name in callback) for i in range(0, len(RETOKS)))' % (KW % dict(s='STRTOKS[j]', r='RETOKS[i]')),
+                     'all(implies(RETOKS[i].name in callback, any(%s for j in range(0, len(STRTOKS)))) for i in range(0, len(RETOKS)))' % (KW % dict(s='STRTOKS[j]', r='RETOKS[i]')),
+                     # ... the callback's scanner holds every such keyword, only such keywords, and runs with the same global flags
+                     'all(implies(RETOKS[i].name in callback, callback[RETOKS[i].name].scanner.g_regex_flags == g_regex_flags) for i in range(0, len(RETOKS)))',
+                     'all(implies(RETOKS[i].name in callback and %s, any(callback[RETOKS[i].name].scanner.terminals[m] is STRTOKS[j] for m in range(0, len(callback[RETOKS[i].name].scanner.terminals)))) '
+                     'for i in range(0, len(RETOKS)) for j in range(0, len(STRTOKS)))' % (KW % dict(s='STRTOKS[j]', r='RETOKS[i]')),
+                     # a keyword whose flags are covered by the regexp terminal's is dropped from the lexer's own terminal list
+                     'all(implies(%s and FSUB(STRTOKS[j].pattern, RETOKS[i].pattern), STRTOKS[j] in embedded_strs) for i in range(0, len(RETOKS)) for j in range(0, len(STRTOKS)))' % (KW % dict(s='STRTOKS[j]', r='RETOKS[i]')),
+                 ]},
+                 loops={0: dict(let={'R0': 'seq(_s0)', 'S0': 'seq(STRTOKS)'},
+                                inv=['_s0 == R0', 'seq(STRTOKS) == S0',
+                                     'all(implies(any(%s for j in range(0, len(S0))), R0[i].name in callback) for i in range(0, _i0))' % (KW % dict(s='S0[j]', r='R0[i]')),
+                                     'all(implies(k in callback, any(R0[i].name == k and any(%s for j in range(0, len(S0))) for i in range(0, _i0))) for k in STR)' % (KW % dict(s='S0[j]', r='R0[i]')),
+                                     'all(implies(R0[i].name in callback, callback[R0[i].name].scanner.g_regex_flags == g_regex_flags) for i in range(0, _i0))',
+                                     'all(implies(%s and FSUB(S0[j].pattern, R0[i].pattern), S0[j] in embedded_strs) for i in range(0, _i0) for j in range(0, len(S0)))' % (KW % dict(s='S0[j]', r='R0[i]'))]),
+                        1: dict(inv=['fresh(unless)', '_s1 == S0', 'seq(STRTOKS) == S0',
+                                     'all(implies(%s, any(unless[m] is S0[j] for m in range(0, len(unless)))) for j in range(0, _i1))' % (KW % dict(s='S0[j]', r='retok')),
+                                     'all(any(unless[m] is S0[j] and %s for j in range(0, _i1)) for m in range(0, len(unless)))' % (KW % dict(s='S0[j]', r='retok')),
+                                     'all(implies(%s and FSUB(S0[j].pattern, retok.pattern), S0[j] in embedded_strs) for j in range(0, _i1))' % (KW % dict(s='S0[j]', r='retok'))])},
+                 names={'expr:tokens_by_type.get(PatternRE, [])': ('sv_env', 'RETOKS'), 'expr:tokens_by_type.get(PatternStr, [])': ('sv_env', 'STRTOKS'),
+                        'expr:strtok.pattern.flags <= retok.pattern.flags': ('contract', 'flags_subset'),
+                        '_get_match': ('contract', 'lark.lexer:_get_match')},
                  replay=_replay)
